@@ -163,7 +163,7 @@ impl Prop for C10 {
         "C10"
     }
     fn rule(&self) -> String {
-        "cases = histories of 0-60 operations over PREPARE (shim replies with an id from the pool {1, 2, 3, 0, u32::MAX, 77} and 0-3 declared parameters, or rejects), EXECUTE{id}, SEND_LONG_DATA{id, param, bytes}, CLOSE{id} (live, closed, or never-prepared ids), PING; generated as a valid prefix, optionally one operation on a never-prepared / rejected / closed id, then a tail of valid-looking commands. Oracle: reference model live: id -> declared parameter count. Valid histories: the callback log equals the model's, executions show the latest declared parameter count, long data sent before a re-prepare or a close is not visible afterwards. First invalid operation: no callback for it or for anything after it, run_on returns Err. Every CLOSE (also of unknown ids) reaches on_close exactly once and adds zero reply bytes. Non-trivial = close->execute, failed-prepare->execute, or a re-prepare of a live id.".into()
+        "cases = histories of 0-60 operations over PREPARE (shim replies with an id from the pool {1, 2, 3, 0, u32::MAX, 77} and 0-3 declared parameters, or rejects), EXECUTE{id}, SEND_LONG_DATA{id, param, bytes}, CLOSE{id} (live, closed, or never-prepared ids), PING; generated as a valid prefix, optionally one operation on a never-prepared / rejected / closed id, then a tail of valid-looking commands; one enumerated history keeps 17 000 (thorough: 70 000) statements open at once and then uses early, boundary and late ids. Oracle: reference model live: id -> declared parameter count. Valid histories: the callback log equals the model's, executions show the latest declared parameter count, long data sent before a re-prepare or a close is not visible afterwards. First invalid operation: no callback for it or for anything after it, run_on returns Err. Every CLOSE (also of unknown ids) reaches on_close exactly once and adds zero reply bytes. Non-trivial = close->execute, failed-prepare->execute, or a re-prepare of a live id.".into()
     }
     fn assumptions(&self) -> Vec<String> {
         vec!["executions always bind their types (after a re-prepare the protocol requires it), so stale bound types cannot be observed by a conforming client; stale long data and stale parameter counts are".into()]
@@ -249,6 +249,22 @@ impl Prop for C10 {
             }
         }
         Case { ops }
+    }
+    fn fixed(&self, tier: Tier) -> Vec<Case> {
+        // "over several statement ids, of any length": tens of thousands of statements live at once
+        // (more than a real server's default max_prepared_stmt_count of 16382), then uses of early,
+        // boundary and late ids
+        let n: u32 = tier.pick(17_000, 70_000);
+        let mut ops: Vec<LOp> = (1..=n).map(|id| LOp::Prepare { reply: Some((id, 1)) }).collect();
+        for id in [1u32, 2, 16_381, 16_382, 16_383, 16_384, n - 1, n] {
+            ops.push(LOp::LongData { id, param: 0, data: vec![id as u8] });
+            ops.push(LOp::Execute { id, vals: vec![id] });
+            ops.push(LOp::Execute { id, vals: vec![id + 1] });
+        }
+        ops.push(LOp::Close { id: 16_383 });
+        ops.push(LOp::Prepare { reply: Some((n + 1, 2)) });
+        ops.push(LOp::Execute { id: n + 1, vals: vec![5, 6] });
+        vec![Case { ops }]
     }
     fn exec(&self, case: &Case) -> Exec {
         let mut ex = Exec::default();
